@@ -9,7 +9,7 @@
 EXTENDS MonBase
 
 MonInit == [cfg |-> [any_master |-> FALSE, self_addr |-> FALSE], sc |-> "", viol |-> <<>>, reads |-> {}]
-V(m, reason, l, ctx) == [m EXCEPT !.viol = Append(@, Viol("C07", reason, l, m.sc, ctx))]
+V(m, reason, l, ctx) == [m EXCEPT !.viol = IF Len(@) >= 300 THEN @ ELSE Append(@, Viol("C07", reason, l, m.sc, ctx))]
 
 \* a solicited first fragment carrying the stimulus' sequence number, not owed to an earlier READ
 RepliesTo(m, e) == \E i \in 1..Len(e.tx) : ~e.tx[i].uns /\ e.tx[i].fir /\ e.tx[i].seq = e.seq
